@@ -37,6 +37,8 @@ ROUTES = {"exp_gt": "vk_fq12_exp_gt", "exp_gt_div": "vk_fq12_exp_gt_div", "exp_g
 def eval_case(case):
     sub = case["sub"]
     msgs = []
+    if sub == "platform":
+        return eval_platform(case)
     if sub == "exp":
         a, k = int(case["a"], 16), int(case["k"], 16)
         exp = ref.f12_pow(base(a), k % ref.r)
@@ -236,13 +238,27 @@ def shards(ctx):
         for part in range(8):
             out.append({"sub": "exp", "a": "%x" % a, "part": part, "parts": 8})
     out.append({"sub": "group"})
+    out.append({"sub": "platform"})
     for part in range(16):
         out.append({"sub": "random", "part": part, "parts": 16})
     return out
 
 
+def eval_platform(case):
+    """the GT exponentiations of harness/platform_vectors.cpp on three native back ends and executed under the ILP32 data model (static i386
+    build): see C03's eval_platform; only the GT groups are judged here"""
+    from checks import c03
+    return c03.eval_platform(groups=("gt_multiply", "gt_multiply_random"))
+
+
 def run_shard(ctx, shard):
     sub = shard["sub"]
+    if sub == "platform":
+        msgs = eval_platform({})
+        ctx.ok(True, "platform-vectors", n=60)
+        if msgs:
+            ctx.fail({"sub": "platform"}, "; ".join(msgs[:3]), sig="platform")
+        return
     if sub == "exp":
         a = int(shard["a"], 16)
         S = alpha.scalars(256, ctx.seed, ctx.tier)
